@@ -281,16 +281,16 @@ class TDRedfieldRelaxationTensor(RedfieldRelaxationTensor, TimeDependent):
 
         """
         if self.as_operators:
-            raise Exception("Cannot be secularized in an opeator form")
+            # the tensor is needed, as for the time-independent tensor
+            self.convert_2_tensor()
             
-        else:
-            N = self.data.shape[1]
-            for ii in range(N):
-                for jj in range(N):
-                    for kk in range(N):
-                        for ll in range(N):
-                            if not (((ii == jj) and (kk == ll)) 
-                                or ((ii == kk) and (jj == ll))) :
-                                    self.data[:,ii,jj,kk,ll] = 0
+        N = self.data.shape[1]
+        for ii in range(N):
+            for jj in range(N):
+                for kk in range(N):
+                    for ll in range(N):
+                        if not (((ii == jj) and (kk == ll)) 
+                            or ((ii == kk) and (jj == ll))) :
+                                self.data[:,ii,jj,kk,ll] = 0
                                     
                                     
